@@ -10,9 +10,9 @@ for f in sorted(glob.glob("/verif/seeded/*/meta.json")):
     rules = sorted({m for k, v in fire.items() for r in (v.get("reports") or []) for m in re.findall(r"\bC\d\d\.R\d+\b", r)})
     h = d.get("history")
     n += 1
-    n_first += 0 if h and ("MISSED" in h or "only" in h.split(";")[0] and "ANALYSIS" in h or "As first written caught by C05" in h or "as first written caught by" in h or "same change" in h) else 1
+    n_first += 0 if h and ("MISSED" in h or "only" in h.split(";")[0] and "ANALYSIS" in h or "As first written caught by C05" in h or "as first written caught by" in h or "ANALYSIS-ERROR" in h or "same change" in h) else 1
     rows.append("| %s | %s | %s | %s | %s |" % (d["id"], d["breaks_property"], ", ".join(props), ", ".join(rules),
-                                              "yes" if not h else "no: " + h if ("MISSED" in h or "ANALYSIS" in h or "same change" in h or "As first written caught by C05" in h or "as first written caught by" in h) else "yes (" + h + ")"))
+                                              "yes" if not h else "no: " + h if ("MISSED" in h or "ANALYSIS" in h or "same change" in h or "As first written caught by C05" in h or "as first written caught by" in h or "ANALYSIS-ERROR" in h) else "yes (" + h + ")"))
 print("| seed | breaks | checks that fire | rules | caught as first written? |\n|---|---|---|---|---|")
 print("\n".join(rows))
 print("\n%d seeds, %d caught by the claimed property's check as first written" % (n, n_first))
